@@ -40,7 +40,10 @@ def gen(rng, broker, tier):
                 "node": f"n{c % (1 if broker == 'mem' else rng.randint(1, 3))}",
                 "think_us": rng.choice([0, 0, 200, 5000, 40_000]),
                 "timeout_us": rng.choice([20_000, 200_000, 1_000_000]),
-                "actions": [rng.choice(["ack", "ack", "ack", "reject", "requeue", "restart", "reject+finish"])
+                # "x+finish:k": the holder's terminal call and its consumer's finish() overlap, the second one starting k loop
+                # steps after the first (k < 0: finish() first) - what a stopping worker does
+                "actions": [rng.choice(["ack", "ack", "ack", "reject", "requeue", "restart", "reject+finish",
+                                        f"reject+finish:{rng.randint(-4, 4)}", f"ack+finish:{rng.randint(-4, 4)}"])
                             for _ in range(rng.randint(3, 25))],
                 "start_us": rng.choice([0, 0, 1000, 50_000]),
             })
@@ -76,6 +79,7 @@ async def _main_consumers(sim, sc, out):
     V = out["violations"]
     ids = [f"m{i}" for i in range(sc["nmsg"])]
     acked: set = set()
+    maybe_acked: set = out.setdefault("_maybe_acked", set())
     got_by: dict = {}
 
     async def produce():
@@ -92,7 +96,7 @@ async def _main_consumers(sim, sc, out):
         cons = mb.get_consumer("q", None, None)
         await cons.start()
         for act in c["actions"]:
-            if len(acked) >= len(ids):
+            if len(acked | maybe_acked) >= len(ids):
                 break
             if act == "restart":
                 await cons.finish()
@@ -119,6 +123,25 @@ async def _main_consumers(sim, sc, out):
             elif act == "reject+finish":
                 # what a stopping worker does: the holder rejects its message while its consumer is being finished
                 await asyncio.gather(mb.reject(key), cons.finish())
+                cons = mb.get_consumer("q", None, None)
+                await cons.start()
+            elif "+finish:" in act:
+                first, k = act.split("+")[0], int(act.split(":")[1])
+                if k >= 0:
+                    t1 = asyncio.ensure_future(getattr(mb, first)(key))
+                    for _ in range(k):
+                        await asyncio.sleep(0)
+                    t2 = asyncio.ensure_future(cons.finish())
+                else:
+                    t2 = asyncio.ensure_future(cons.finish())
+                    for _ in range(-k):
+                        await asyncio.sleep(0)
+                    t1 = asyncio.ensure_future(getattr(mb, first)(key))
+                await asyncio.gather(t1, t2)
+                if first == "ack":
+                    # whichever takes effect first wins: either the message is gone, or its holder's shutdown returned it
+                    # and the ack found nothing to do - both are fine, two copies are not
+                    maybe_acked.add(key.id_)
                 cons = mb.get_consumer("q", None, None)
                 await cons.start()
             else:
@@ -149,6 +172,10 @@ async def _main_consumers(sim, sc, out):
         if id_ in dropped or id_ in tainted:
             continue
         ps = insp.get(id_, [])
+        if id_ in maybe_acked and id_ not in acked:
+            if len(ps) > 1:
+                V.append(violation("not-exactly-one-place", f"C14/{b}/places/{place_summary(insp, id_)}", id=id_))
+            continue
         if id_ in acked and ps:
             V.append(violation("acked-but-present", f"C14/{b}/acked-but-present/{place_summary(insp, id_)}", id=id_))
         elif id_ not in acked and len(ps) != 1:
@@ -212,7 +239,13 @@ def _ownership_oracle(rec, ids, V, b, out):
                 tainted.add(e.id)
         elif kind == "ack-begin":
             holder.pop(e.id, None)
-            gone.add(e.id)
+            d_ = deliver_of.get(e.id)
+            fin = [f for f in rec.events if f.op == "finish" and d_ is not None and f.who == d_.who and f.seq > d_.end_seq
+                   and (e.end_seq is None or f.seq < e.end_seq)]
+            if not fin:
+                # (an ack which overlaps or follows its own consumer's finish() may find the message already returned by
+                # that shutdown: it is then nobody's ack, and the redelivery is legitimate)
+                gone.add(e.id)
         elif kind == "finish-begin":
             for i, h in list(holder.items()):
                 if h == e.who:
@@ -302,6 +335,7 @@ async def _main_workers(sim, sc, out):
                                by=[s[4] for s in state.starts if s[2] == jid]))
     _ownership_oracle(world.rec, set(jobs) - held_by_dead, V, b, out)
     out.pop("_tainted", None)
+    out.pop("_maybe_acked", None)
     out["nontrivial"] = len(nodes_used) >= 2
     out["states"].append(f"w{len(nodes_used)}-j{len(counts)}")
 
